@@ -75,6 +75,47 @@ def _wired_by_constructor(ctx: Ctx, e, holder_field: str) -> bool:
     return True
 
 
+def r20_6(ctx: Ctx, e, dens: str, dparam):
+    """Nested evolvents.  An Evolvent that answers its queries through another Evolvent it builds itself (a reduced
+    curve over the free variables, a coarser helper curve ...) produces the trial coordinates of that other object:
+    they lie on the configured grid only if the inner object has the same dimension and density.  In particular an
+    inner object of dimension 1 takes the one-dimensional shortcut, which ignores the density altogether."""
+    rid = 'R20.6'
+    ctx.rule(rid, 'every Evolvent constructed inside the evolvent module itself has the dimension and the density of '
+                  'the object that constructs it (expected number of such constructions: 0)')
+    init = e.cls.methods['__init__']
+    names = init.param_names[1:]
+    n_sites = 0
+    for f in [m for m in e.cls.methods.values() if m.kind == 'function'] + \
+            [g for g in ctx.ix.funcs.values() if g.kind == 'function' and g.cls is None and g.module is e.cls.module]:
+        if not any(isinstance(c, tuple) and c[0] == 'new' and ctx.ix.classes[c[1]].is_subclass_of(e.cls)
+                   for nd in ast.walk(f.node) if isinstance(nd, ast.Call) for c in ctx.pta.callees(f, nd)):
+            continue
+        ex = ctx.explorer(inline_ctor=False, unroll=1)
+        selfv = var(f.param_names[0]) if f.param_names and f.cls is not None else None
+        for p in C.normal_paths(ex.explore(f)):
+            for ne in C.new_events(p):
+                if not ne.d['cls'].is_subclass_of(e.cls):
+                    continue
+                n_sites += 1
+                bound = dict(zip(names, ne.d['args']))
+                bound.update(ne.d['kwargs'])
+                gotn = bound.get('numberOfFloatVariables')
+                gotd = bound.get(dparam) if dparam else None
+                okn = selfv is not None and gotn is not None and \
+                    C.same_mod_ver(gotn, attr(selfv, 'numberOfFloatVariables'))
+                okd = selfv is not None and gotd is not None and C.same_mod_ver(gotd, attr(selfv, dens))
+                ctx.check(okn and okd, rid, f.short, f.loc(ne.node),
+                          'the inner evolvent has the dimension and density of the outer one',
+                          f'{f.short} builds an inner Evolvent with dimension '
+                          f'{C.fmt(gotn) if gotn is not None else "<default 1>"} and density '
+                          f'{C.fmt(gotd) if gotd is not None else "<default>"} and answers queries through it: trial '
+                          f'coordinates then lie on the grid of that object (an inner dimension of 1 takes the '
+                          f'one-dimensional shortcut, which ignores the density), not on the 2^-m grid of the '
+                          f'N-dimensional curve', key=f'{rid}::{f.short}::inner-evolvent')
+    ctx.ok(rid, e.cls.name, f'{n_sites} constructions of an Evolvent inside the evolvent module', e.cls.module.relpath)
+
+
 def check(ctx: Ctx):
     e = evo.evo_of(ctx)
     rid = 'R20.1'
@@ -139,6 +180,7 @@ def check(ctx: Ctx):
         ctx.check(ok, 'R20.2', fn.short, fn.loc(lp), f'level loop is range(self.{dens})',
                   f'the level loop of {fn.short} iterates {ast.unparse(it)}, not range(self.{dens}): the curve is '
                   f'not built to the configured density', key=f'R20.2::{fn.short}::level-loop')
+    r20_6(ctx, e, dens, dparam)
     # the object that generates the trial points works with the solver's own evolvent
     ctx.rule('R20.5', 'the Method (and Process) of a Solver hold the Evolvent the Solver constructed with '
                       'parameters.evolventDensity - never one that came from elsewhere (a restored / shared object)')
